@@ -551,7 +551,30 @@ def r11(ctx):
     c07.r5(ctx, P, "C01.R11")
 
 
-RULES = [r1, r2, r3, r4, r5, r6, r7, r8, r8b, r9, r10, r11]
+def r12(ctx):
+    """an empty block is read (and its bytes "deleted") without touching the store: its offset is
+    the sum of the lengths before it and may lie at or beyond the end of the data store once a
+    clear has truncated the tail — both backends refuse a zero-length read or delete there, and
+    the block is still held (defect D18)"""
+    rule = "C01.R12"
+    fr = ctx.fn(BS_READ)
+    if need(ctx, P, rule, BS_READ, fr):
+        lefts = [(bb, t) for t, bb in return_alternatives(fr) if is_agg(strip(t) if t[0] != "agg" else t, "Left")]
+        zero = [(tr, fl) for _, o, tr, fl in bool_switches(fr, lambda o: o[0] == "bin" and o[1] == "Eq" and any(term_is_lit(x, 0) for x in (o[2], o[3])) and any(path_of(strip(x)) == "byte_range.length" for x in (o[2], o[3])))]
+        good = bool(lefts) and bool(zero) and all(any(fl is not None and fr.dominates(fl, bb) for _, fl in zero) for bb, _ in lefts)
+        ctx.check(P, rule, "BlockStore::read asks the store only for a range that has bytes", good, "byte_range.length == 0 => Right(empty), no instruction",
+                  "BlockStore::read returns a read instruction also for an empty range: get() of an empty block whose offset lies beyond the (truncated) end of the data store fails with OutOfBounds although has() reports the block",
+                  key="C01|C01.R12|BlockStore::read|empty range")
+    fa = ctx.real_body(CLEAR, [BS_CLEAR])
+    if need(ctx, P, rule, CLEAR, fa):
+        bc = sites(fa, BS_CLEAR)
+        pos = [tr for _, o, tr, fl in bool_switches(fa, lambda o: o[0] == "bin" and o[1] == "Lt" and term_is_lit(o[2], 0)) if tr is not None]
+        good = bool(bc) and all(any(fa.dominates(tr, s_) for tr in pos) for s_ in bc)
+        ctx.check(P, rule, "clear deletes only a hole that has bytes", good, "clear_length > 0 => BlockStore::clear(offset, clear_length)",
+                  "clear issues its delete also when the hole holds no bytes: behind a truncated tail the zero-length delete lies beyond the end of the store and fails, after the drop entry was logged", key="C01|C01.R12|clear|empty hole")
+
+
+RULES = [r1, r2, r3, r4, r5, r6, r7, r8, r8b, r9, r10, r11, r12]
 EXPLANATION = ("C01 (log contents equal an append-only list model across reopen): decides the replay codec agreement of the oplog Entry — each optional section is decoded under the flag bit it was "
                "encoded with, flags 1/2/4/8, same presence conditions in size and encode (R1); replay completeness — every field of Entry reaches its consumer inside the replay loop of Hypercore::new, the "
                "rebuilt changeset is completed, copied into the header and committed, entries are walked in log order, and whether a replay consumer runs for an entry depends only on the entry field it consumes — never on another field such as tree_upgrade (R2); the read gate — every storage read of get() is dominated by bitfield.get(index), the "
